@@ -1,19 +1,1125 @@
-//! Engine `btree` — not built yet (stub).
+//! Engine `btree` (C10): operation sequences on a real `Btree` over a raw pager. After every operation the engine
+//! records the operation's result, probes (both search entry points), forward and backward scans (as hashes) and the
+//! **page-graph dump** (as a delta against the previous dump). The line is an *observation*; the Lean driver judges it:
+//! `checkTree` (proved sound) must accept every dump, `toList dump` must equal the spec map folded over the ops, and all
+//! results must be the spec's. A second, independent structural checker runs here (`c=` field); the driver also reports
+//! when the two checkers disagree.
+//!
+//! Case grammar (the first word carries the parameters so that op-wise shrinking keeps them):
+//!   seq:<pagesize>:<minkeys>:<siblings>:<keytype> op ; op ; …
+//!     op ::= ins k len seed | upd k len seed | ups k len seed | rm k | rmt k | get k | gett k | scan
+//!     k = key *index* (Nat); the key type says how an index becomes a real key, monotonically:
+//!         u64  BigUInt k            i64  BigInt k-500         text  Blob bits(k)   (24-bit binary, trailing '0's cut)
+//!         ltext Blob 'x'*(pagesize/2) ++ bits(k)               comp  (BigInt k/7-30, Blob bits(k%7))
+//!     payload(len, seed) = seed (2 bytes LE, as far as they fit) then a pattern depending on seed and position
+//!   cmp:<keytype> a b            the code's comparator on two realised keys
+//!   split n1,n2,…                Btree::split_cells on cells with these payload sizes
+//!   dist <pagesize> n1,n2,…      Btree::compute_best_cell_distribution
 use super::{Case, Engine, Tier};
 use crate::rng::Rng;
+use axmosdb::verif::btree::{
+    FileDump, KeyKind, PageBody, VErr, VKey, VTree, best_distribution_sizes, cell_sizes, geometry, split_cells_sizes,
+};
+use std::collections::{BTreeMap, BTreeSet};
+use std::sync::atomic::{AtomicU64, Ordering as AtomicOrdering};
 
 pub struct BtreeEngine;
 
-impl Engine for BtreeEngine {
-    fn gen_cases(&self, _rng: &mut Rng, _tier: Tier) -> Vec<Case> {
-        Vec::new()
-    }
-    fn exec(&mut self, _line: &str) -> String {
-        "unimplemented".into()
+// ------------------------------------------------------------------------------------------------ keys, payloads
+
+#[derive(Clone, Copy, PartialEq, Eq, Debug)]
+enum Kt {
+    U64,
+    I64,
+    Text,
+    LText,
+    Comp,
+}
+
+fn parse_kt(s: &str) -> Option<Kt> {
+    Some(match s {
+        "u64" => Kt::U64,
+        "i64" => Kt::I64,
+        "text" => Kt::Text,
+        "ltext" => Kt::LText,
+        "comp" => Kt::Comp,
+        _ => return None,
+    })
+}
+
+fn kind_of(kt: Kt) -> KeyKind {
+    match kt {
+        Kt::U64 => KeyKind::U64,
+        Kt::I64 => KeyKind::I64,
+        Kt::Text | Kt::LText => KeyKind::Text,
+        Kt::Comp => KeyKind::Comp,
     }
 }
 
-/// Content of `lean/AxVerif/Generated/<Engine>.lean`, if this engine extracts constants from the code.
+const MAX_KEY_INDEX: u64 = 1 << 24;
+
+fn bits(k: u64) -> Vec<u8> {
+    let mut v: Vec<u8> = (0..24).rev().map(|i| if (k >> i) & 1 == 1 { b'1' } else { b'0' }).collect();
+    while v.last() == Some(&b'0') {
+        v.pop();
+    }
+    v
+}
+
+fn unbits(v: &[u8]) -> Option<u64> {
+    if v.len() > 24 || v.last() == Some(&b'0') {
+        return None;
+    }
+    let mut k = 0u64;
+    for i in 0..24 {
+        let b = match v.get(i) {
+            None => 0,
+            Some(b'0') => 0,
+            Some(b'1') => 1,
+            _ => return None,
+        };
+        k = (k << 1) | b;
+    }
+    Some(k)
+}
+
+fn realise(kt: Kt, page_size: usize, k: u64) -> VKey {
+    match kt {
+        Kt::U64 => VKey::U64(k),
+        Kt::I64 => VKey::I64(k as i64 - 500),
+        Kt::Text => VKey::Text(bits(k)),
+        Kt::LText => {
+            let mut v = vec![b'x'; page_size / 2];
+            v.extend(bits(k));
+            VKey::Text(v)
+        }
+        Kt::Comp => VKey::Comp((k / 7) as i64 - 30, bits(k % 7)),
+    }
+}
+
+fn index_of(kt: Kt, page_size: usize, key: &VKey) -> Option<u64> {
+    let k = match (kt, key) {
+        (Kt::U64, VKey::U64(k)) => *k,
+        (Kt::I64, VKey::I64(k)) => u64::try_from(*k + 500).ok()?,
+        (Kt::Text, VKey::Text(v)) => unbits(v)?,
+        (Kt::LText, VKey::Text(v)) => {
+            let n = page_size / 2;
+            if v.len() < n || v[..n].iter().any(|b| *b != b'x') {
+                return None;
+            }
+            unbits(&v[n..])?
+        }
+        (Kt::Comp, VKey::Comp(a, v)) => {
+            let r = unbits(v)?;
+            if r >= 7 {
+                return None;
+            }
+            u64::try_from(*a + 30).ok()?.checked_mul(7)? + r
+        }
+        _ => return None,
+    };
+    (k < MAX_KEY_INDEX && &realise(kt, page_size, k) == key).then_some(k)
+}
+
+fn pattern_byte(seed: u64, i: usize) -> u8 {
+    ((seed ^ (i as u64).wrapping_mul(131)).wrapping_add((i >> 8) as u64)) as u8
+}
+
+fn payload(len: usize, seed: u64) -> Vec<u8> {
+    (0..len)
+        .map(|i| match i {
+            0 => seed as u8,
+            1 => (seed >> 8) as u8,
+            _ => pattern_byte(seed, i),
+        })
+        .collect()
+}
+
+/// The seed a payload of this length can carry.
+fn seed_mask(len: usize, seed: u64) -> u64 {
+    match len {
+        0 => 0,
+        1 => seed & 0xff,
+        _ => seed & 0xffff,
+    }
+}
+
+const CORRUPT: u64 = 99999;
+
+/// (len, seed) if the bytes are exactly `payload(len, seed)`, else (len, CORRUPT).
+fn payload_id(bytes: &[u8]) -> (u64, u64) {
+    let len = bytes.len();
+    let seed = match len {
+        0 => 0,
+        1 => bytes[0] as u64,
+        _ => bytes[0] as u64 | ((bytes[1] as u64) << 8),
+    };
+    if bytes.iter().enumerate().skip(2).all(|(i, b)| *b == pattern_byte(seed, i)) {
+        (len as u64, seed)
+    } else {
+        (len as u64, CORRUPT)
+    }
+}
+
+const FNV_INIT: u64 = 0xcbf29ce484222325;
+fn mix(h: u64, x: u64) -> u64 {
+    (h ^ x).wrapping_mul(0x100000001b3)
+}
+
+fn err_class(e: &VErr) -> String {
+    match e {
+        VErr::Duplicate => "dup".into(),
+        VErr::NoKey => "nokey".into(),
+        VErr::Empty => "empty".into(),
+        VErr::Other(c, _) if c.starts_with("PANIC@") => c.clone(),
+        VErr::Other(c, _) => format!("E{}", c),
+    }
+}
+
+// ------------------------------------------------------------------------------------------------ ops
+
+#[derive(Clone, Debug)]
+enum Op {
+    Ins(u64, usize, u64),
+    Upd(u64, usize, u64),
+    Ups(u64, usize, u64),
+    Rm(u64),
+    Rmt(u64),
+    Get(u64),
+    Gett(u64),
+    Scan,
+}
+
+fn parse_op(s: &str) -> Option<Op> {
+    let w: Vec<&str> = s.split(' ').collect();
+    let key = |s: &str| s.parse::<u64>().ok().filter(|k| *k < MAX_KEY_INDEX);
+    let len = |s: &str| s.parse::<usize>().ok().filter(|n| *n <= 1 << 20);
+    let seed = |s: &str| s.parse::<u64>().ok().filter(|n| *n < 65536);
+    Some(match w.as_slice() {
+        ["ins", k, l, s] => Op::Ins(key(k)?, len(l)?, seed(s)?),
+        ["upd", k, l, s] => Op::Upd(key(k)?, len(l)?, seed(s)?),
+        ["ups", k, l, s] => Op::Ups(key(k)?, len(l)?, seed(s)?),
+        ["rm", k] => Op::Rm(key(k)?),
+        ["rmt", k] => Op::Rmt(key(k)?),
+        ["get", k] => Op::Get(key(k)?),
+        ["gett", k] => Op::Gett(key(k)?),
+        ["scan"] => Op::Scan,
+        _ => return None,
+    })
+}
+
+struct SeqCase {
+    page_size: usize,
+    min_keys: usize,
+    siblings: usize,
+    kt: Kt,
+    ops: Vec<Op>,
+}
+
+fn parse_seq(line: &str) -> Option<SeqCase> {
+    let (head, body) = line.split_once(' ')?;
+    let h: Vec<&str> = head.split(':').collect();
+    let ["seq", ps, mk, sib, kt] = h.as_slice() else { return None };
+    let page_size: usize = ps.parse().ok()?;
+    let min_keys: usize = mk.parse().ok()?;
+    let siblings: usize = sib.parse().ok()?;
+    if !(page_size == 4096 || page_size == 8192 || page_size == 16384) || !(3..=16).contains(&min_keys) || !(1..=8).contains(&siblings) {
+        return None;
+    }
+    let ops: Option<Vec<Op>> = body.split(" ; ").map(parse_op).collect();
+    let ops = ops?;
+    if ops.is_empty() || ops.len() > 5000 {
+        return None;
+    }
+    Some(SeqCase { page_size, min_keys, siblings, kt: parse_kt(kt)?, ops })
+}
+
+// ------------------------------------------------------------------------------------------------ dump → tokens
+
+fn id0(x: Option<u64>) -> u64 {
+    x.unwrap_or(0)
+}
+
+/// One token per page (see the module doc of `AxVerif.Driver.BTree` for the grammar).
+fn page_tokens(d: &FileDump, kt: Kt) -> BTreeMap<u64, String> {
+    let mut out = BTreeMap::new();
+    for p in &d.pages {
+        let tok = match &p.body {
+            PageBody::Unreadable(_) => format!("B{}", p.id),
+            PageBody::Overflow(o) => format!("O{}:{}", p.id, id0(o.next)),
+            PageBody::Btree(b) => {
+                if !b.well_formed || b.self_id != p.id {
+                    format!("B{}", p.id)
+                } else {
+                    let leaf = b.right_child.is_none();
+                    let cells: Vec<String> = b
+                        .cells
+                        .iter()
+                        .map(|c| {
+                            let key = match c.key.as_ref().and_then(|k| index_of(kt, d.page_size, k)) {
+                                Some(k) => k.to_string(),
+                                None => "!".into(),
+                            };
+                            let chain = if c.is_overflow {
+                                format!(
+                                    "@{}{}",
+                                    c.overflow_chain.iter().map(|x| x.to_string()).collect::<Vec<_>>().join("+"),
+                                    if c.chain_ok { "" } else { "+!" }
+                                )
+                            } else {
+                                String::new()
+                            };
+                            if leaf {
+                                let (len, seed) = match c.payload_bytes_id() {
+                                    Some(x) => x,
+                                    None => (0, CORRUPT),
+                                };
+                                format!("{}.{}.{}{}", key, len, seed, chain)
+                            } else {
+                                format!("{}.{}{}", id0(c.left_child), key, chain)
+                            }
+                        })
+                        .collect();
+                    if leaf {
+                        format!("L{}:{}:{}:{}", p.id, id0(b.prev), id0(b.next), cells.join(","))
+                    } else {
+                        format!("I{}:{}:{}:{}:{}", p.id, id0(b.prev), id0(b.next), id0(b.right_child), cells.join(","))
+                    }
+                }
+            }
+        };
+        out.insert(p.id, tok);
+    }
+    out
+}
+
+/// `S<id>:<free_space>:<free_space_ptr>:<offset>+<total size>,…` (slot order) for every well-formed B-tree page
+fn slotted_tokens(d: &FileDump) -> BTreeMap<u64, String> {
+    let mut out = BTreeMap::new();
+    for p in &d.pages {
+        if let PageBody::Btree(b) = &p.body {
+            if b.well_formed && b.self_id == p.id {
+                let cells: Vec<String> = b.cells.iter().map(|c| format!("{}+{}", c.offset, c.storage_size - 2)).collect();
+                out.insert(p.id, format!("S{}:{}:{}:{}", p.id, b.free_space, b.free_space_ptr, cells.join(",")));
+            }
+        }
+    }
+    out
+}
+
+// The facade reports payloads as (len, fnv digest); the engine needs (len, seed): re-derive the digest of the pattern.
+trait PayloadId {
+    fn payload_bytes_id(&self) -> Option<(u64, u64)>;
+}
+impl PayloadId for axmosdb::verif::btree::CellDump {
+    fn payload_bytes_id(&self) -> Option<(u64, u64)> {
+        let (len, digest) = self.payload?;
+        let seed = self.payload_head?;
+        let seed = seed_mask(len, seed as u64);
+        if axmosdb::verif::btree::fnv64(&payload(len, seed)) == digest {
+            Some((len as u64, seed))
+        } else {
+            Some((len as u64, CORRUPT))
+        }
+    }
+}
+
+// ------------------------------------------------------------------------------------------------ independent checker
+
+struct Chk<'a> {
+    pages: BTreeMap<u64, &'a axmosdb::verif::btree::BtPageDump>,
+    kt: Kt,
+    page_size: usize,
+    visited: BTreeSet<u64>,
+    leaves: Vec<u64>,
+    /// pages of every level in key order (level 0 = root)
+    levels: Vec<Vec<u64>>,
+    depth: Option<usize>,
+}
+
+impl<'a> Chk<'a> {
+    fn key(&self, c: &axmosdb::verif::btree::CellDump) -> Result<u64, &'static str> {
+        c.key.as_ref().and_then(|k| index_of(self.kt, self.page_size, k)).ok_or("key")
+    }
+
+    fn walk(&mut self, id: u64, lo: Option<u64>, hi: Option<u64>, depth: usize) -> Result<(), &'static str> {
+        if depth > self.pages.len() + 1 || !self.visited.insert(id) {
+            return Err("cycle");
+        }
+        let p = *self.pages.get(&id).ok_or("page")?;
+        while self.levels.len() <= depth {
+            self.levels.push(Vec::new());
+        }
+        self.levels[depth].push(id);
+        let mut prev: Option<u64> = None;
+        let mut keys = Vec::with_capacity(p.cells.len());
+        for c in &p.cells {
+            let k = self.key(c)?;
+            if prev.is_some_and(|q| q >= k) {
+                return Err("order");
+            }
+            prev = Some(k);
+            keys.push(k);
+        }
+        match p.right_child {
+            None => {
+                for k in &keys {
+                    if lo.is_some_and(|l| *k < l) || hi.is_some_and(|h| *k >= h) {
+                        if std::env::var("AXH_BTREE_WHY").is_ok() {
+                            eprintln!("bound: leaf {} key {} not in [{:?},{:?})", id, k, lo, hi);
+                        }
+                        return Err("bound");
+                    }
+                }
+                match self.depth {
+                    None => self.depth = Some(depth),
+                    Some(d) if d != depth => return Err("depth"),
+                    _ => {}
+                }
+                self.leaves.push(id);
+                Ok(())
+            }
+            Some(right) => {
+                let mut lo_i = lo;
+                for (c, k) in p.cells.iter().zip(&keys) {
+                    if lo.is_some_and(|l| *k < l) || hi.is_some_and(|h| *k >= h) {
+                        if std::env::var("AXH_BTREE_WHY").is_ok() {
+                            eprintln!("bound: interior {} separator {} not in [{:?},{:?})", id, k, lo, hi);
+                        }
+                        return Err("bound");
+                    }
+                    let child = c.left_child.ok_or("child0")?;
+                    self.walk(child, lo_i, Some(*k), depth + 1)?;
+                    lo_i = Some(*k);
+                }
+                // the interval handed to a child must not be inverted by an out-of-range separator above it:
+                // children check their own keys against [lo_i, k), so nothing else is needed here
+                self.walk(right, lo_i, hi, depth + 1)
+            }
+        }
+    }
+}
+
+/// `ok` or the first rule broken: page | cycle | key | order | bound | depth | child0 | chain | links | emptyleaf | ilinks
+fn rust_check(d: &FileDump, root: u64, kt: Kt) -> &'static str {
+    let mut pages = BTreeMap::new();
+    for p in &d.pages {
+        if let PageBody::Btree(b) = &p.body {
+            if b.well_formed && b.self_id == p.id {
+                pages.insert(p.id, b);
+            }
+        }
+    }
+    let mut c = Chk { pages, kt, page_size: d.page_size, visited: BTreeSet::new(), leaves: Vec::new(), levels: Vec::new(), depth: None };
+    if let Err(e) = c.walk(root, None, None, 0) {
+        return e;
+    }
+    // a reachable cell whose overflow chain cannot be followed (the code's Reassembler fails on it)
+    for id in &c.visited {
+        if c.pages.get(id).is_some_and(|p| p.cells.iter().any(|x| x.is_overflow && !x.chain_ok)) {
+            return "chain";
+        }
+    }
+    for (i, id) in c.leaves.iter().enumerate() {
+        let p = c.pages[id];
+        let want_prev = if i == 0 { 0 } else { c.leaves[i - 1] };
+        let want_next = if i + 1 == c.leaves.len() { 0 } else { c.leaves[i + 1] };
+        if id0(p.prev) != want_prev || id0(p.next) != want_next {
+            return "links";
+        }
+    }
+    // a leaf without cells, other than an empty root: `get_right_most` and the backward iterator compute `num_slots - 1`
+    if c.pages[&root].right_child.is_some() && c.leaves.iter().any(|id| c.pages[id].cells.is_empty()) {
+        return "emptyleaf";
+    }
+    // interior levels: the code keeps prev/next there too and uses them to find the frontier of a redistribution
+    for level in &c.levels {
+        for (i, id) in level.iter().enumerate() {
+            let p = c.pages[id];
+            let want_prev = if i == 0 { 0 } else { level[i - 1] };
+            let want_next = if i + 1 == level.len() { 0 } else { level[i + 1] };
+            if id0(p.prev) != want_prev || id0(p.next) != want_next {
+                return "ilinks";
+            }
+        }
+    }
+    "ok"
+}
+
+// ------------------------------------------------------------------------------------------------ exec
+
+static COUNTER: AtomicU64 = AtomicU64::new(0);
+
+struct Scratch(std::path::PathBuf);
+impl Scratch {
+    fn new() -> Scratch {
+        let n = COUNTER.fetch_add(1, AtomicOrdering::Relaxed);
+        if n == 0 {
+            // children that were killed (hang) or aborted could not remove their directory: sweep those of dead processes
+            if let Ok(rd) = std::fs::read_dir(std::env::temp_dir()) {
+                for e in rd.flatten() {
+                    let name = e.file_name().to_string_lossy().to_string();
+                    if let Some(rest) = name.strip_prefix("axh-btree-") {
+                        let pid = rest.split('-').next().unwrap_or("");
+                        if !pid.is_empty() && !std::path::Path::new("/proc").join(pid).exists() {
+                            let _ = std::fs::remove_dir_all(e.path());
+                        }
+                    }
+                }
+            }
+        }
+        let d = std::env::temp_dir().join(format!("axh-btree-{}-{}", std::process::id(), n));
+        let _ = std::fs::remove_dir_all(&d);
+        std::fs::create_dir_all(&d).expect("scratch dir");
+        Scratch(d)
+    }
+}
+impl Drop for Scratch {
+    fn drop(&mut self) {
+        let _ = std::fs::remove_dir_all(&self.0);
+    }
+}
+
+/// Runs one facade call; a panic of the real code becomes `Err(P<file:line>)` so that the remaining observations
+/// (above all the dump of the state the panic left behind) are still taken.
+fn guard<T>(f: impl FnOnce() -> Result<T, VErr>) -> Result<T, VErr> {
+    match std::panic::catch_unwind(std::panic::AssertUnwindSafe(f)) {
+        Ok(r) => r,
+        Err(_) => {
+            let loc = crate::LAST_PANIC.with(|p| p.borrow_mut().take()).unwrap_or_else(|| "?".into());
+            Err(VErr::Other(format!("PANIC@{}", loc), String::new()))
+        }
+    }
+}
+
+fn probe_str(kt: Kt, ps: usize, k: u64, r: Result<Option<(VKey, Vec<u8>)>, VErr>) -> String {
+    match r {
+        Ok(None) => "none".into(),
+        Ok(Some((key, bytes))) => {
+            if index_of(kt, ps, &key) != Some(k) {
+                "wrongkey".into()
+            } else {
+                let (l, s) = payload_id(&bytes);
+                format!("{},{}", l, s)
+            }
+        }
+        Err(e) => err_class(&e),
+    }
+}
+
+fn scan_str(kt: Kt, ps: usize, r: Result<Vec<(VKey, Vec<u8>)>, VErr>) -> String {
+    match r {
+        Err(VErr::Empty) => format!("{}:0", FNV_INIT),
+        Err(e) => err_class(&e),
+        Ok(v) => {
+            let mut h = FNV_INIT;
+            for (key, bytes) in &v {
+                let k = index_of(kt, ps, key).unwrap_or(u64::MAX);
+                let (l, s) = payload_id(bytes);
+                h = mix(mix(mix(h, k), l), s);
+            }
+            format!("{}:{}", h, v.len())
+        }
+    }
+}
+
+const PROBE_ALL_EVERY: usize = 16;
+
+fn exec_seq(c: &SeqCase) -> String {
+    let scratch = Scratch::new();
+    let mut t = match VTree::create(&scratch.0, c.page_size, c.min_keys, c.siblings, 20_000, kind_of(c.kt)) {
+        Ok(t) => t,
+        Err(e) => return format!("create-failed ## {}", e),
+    };
+    let ps = c.page_size;
+    let kt = c.kt;
+    let rk = |k: u64| realise(kt, ps, k);
+    // the tree cannot hold more entries than there were operations: a longer scan is a cyclic leaf chain
+    #[allow(non_snake_case)]
+    let SCAN_LIMIT: usize = c.ops.len() + 8;
+    let mut mentioned: BTreeSet<u64> = BTreeSet::new();
+    for op in &c.ops {
+        match op {
+            Op::Ins(k, ..) | Op::Upd(k, ..) | Op::Ups(k, ..) | Op::Rm(k) | Op::Rmt(k) | Op::Get(k) | Op::Gett(k) => {
+                mentioned.insert(*k);
+            }
+            Op::Scan => {}
+        }
+    }
+    let mut prev_tokens: BTreeMap<u64, String> = BTreeMap::new();
+    let mut prev_slotted: BTreeMap<u64, String> = BTreeMap::new();
+    let mut prev_free = String::new();
+    let mut out: Vec<String> = Vec::with_capacity(c.ops.len() + 1);
+    let mut diag_errs: Vec<String> = Vec::new();
+    let mut max_pages = 0u64;
+    let res = |r: Result<(), VErr>, diag: &mut Vec<String>| match r {
+        Ok(()) => "ok".to_string(),
+        Err(e) => {
+            if let VErr::Other(_, m) = &e {
+                if diag.len() < 3 {
+                    diag.push(m.replace(" ## ", " # ").replace(" ; ", " , "));
+                }
+            }
+            err_class(&e)
+        }
+    };
+    // harness-side spec map: diagnostics only (`self=` after ##); the verdict is the Lean driver's
+    let mut spec: BTreeMap<u64, (u64, u64)> = BTreeMap::new();
+    let mut self_bad: Option<String> = None;
+    let spec_scan = |m: &BTreeMap<u64, (u64, u64)>, rev: bool| {
+        let mut h = FNV_INIT;
+        let mut f = |(k, (l, s)): (&u64, &(u64, u64))| h = mix(mix(mix(h, *k), *l), *s);
+        if rev { m.iter().rev().for_each(&mut f) } else { m.iter().for_each(&mut f) }
+        format!("{}:{}", h, m.len())
+    };
+    let spec_probe = |m: &BTreeMap<u64, (u64, u64)>, k: u64| match m.get(&k) {
+        Some((l, s)) => format!("{},{}", l, s),
+        None => "none".to_string(),
+    };
+    for (i, op) in c.ops.iter().enumerate() {
+        let want_r = match op {
+            Op::Ins(k, l, s) => {
+                if spec.contains_key(k) { "dup".to_string() } else { spec.insert(*k, (*l as u64, seed_mask(*l, *s))); "ok".into() }
+            }
+            Op::Upd(k, l, s) => {
+                if spec.contains_key(k) { spec.insert(*k, (*l as u64, seed_mask(*l, *s))); "ok".to_string() } else { "nokey".into() }
+            }
+            Op::Ups(k, l, s) => { spec.insert(*k, (*l as u64, seed_mask(*l, *s))); "ok".to_string() }
+            Op::Rm(k) | Op::Rmt(k) => if spec.remove(k).is_some() { "ok".to_string() } else { "nokey".into() },
+            Op::Get(k) | Op::Gett(k) => spec_probe(&spec, *k),
+            Op::Scan => spec_scan(&spec, false),
+        };
+        let (r, key) = match op {
+            Op::Ins(k, l, s) => (res(guard(|| t.insert(&rk(*k), &payload(*l, seed_mask(*l, *s)))), &mut diag_errs), Some(*k)),
+            Op::Upd(k, l, s) => (res(guard(|| t.update(&rk(*k), &payload(*l, seed_mask(*l, *s)))), &mut diag_errs), Some(*k)),
+            Op::Ups(k, l, s) => (res(guard(|| t.upsert(&rk(*k), &payload(*l, seed_mask(*l, *s)))), &mut diag_errs), Some(*k)),
+            Op::Rm(k) => (res(guard(|| t.remove(&rk(*k))), &mut diag_errs), Some(*k)),
+            Op::Rmt(k) => (res(guard(|| t.remove_tuple(&rk(*k))), &mut diag_errs), Some(*k)),
+            Op::Get(k) => (probe_str(kt, ps, *k, guard(|| t.search(&rk(*k)))), Some(*k)),
+            Op::Gett(k) => (probe_str(kt, ps, *k, guard(|| t.search_tuple(&rk(*k)))), Some(*k)),
+            Op::Scan => (scan_str(kt, ps, guard(|| t.scan(SCAN_LIMIT))), None),
+        };
+        let (g, tt) = match key {
+            Some(k) => (probe_str(kt, ps, k, guard(|| t.search(&rk(k)))), probe_str(kt, ps, k, guard(|| t.search_tuple(&rk(k))))),
+            None => ("-".into(), "-".into()),
+        };
+        let s = scan_str(kt, ps, guard(|| t.scan(SCAN_LIMIT)));
+        let b = scan_str(kt, ps, guard(|| t.scan_back(SCAN_LIMIT)));
+        if self_bad.is_none() {
+            let want_g = key.map(|k| spec_probe(&spec, k)).unwrap_or_else(|| "-".into());
+            for (f, want, got) in [("r", &want_r, &r), ("g", &want_g, &g), ("t", &want_g, &tt), ("s", &spec_scan(&spec, false), &s), ("b", &spec_scan(&spec, true), &b)] {
+                if want != got {
+                    self_bad = Some(format!("bad@{}:{}(want={},got={})", i, f, want, got));
+                    break;
+                }
+            }
+        }
+        let mut fields = vec![format!("r={}", r), format!("g={}", g), format!("t={}", tt), format!("s={}", s), format!("b={}", b)];
+        if (i + 1) % PROBE_ALL_EVERY == 0 || i + 1 == c.ops.len() {
+            let mut h = FNV_INIT;
+            for k in &mentioned {
+                let p = probe_str(kt, ps, *k, guard(|| t.search(&rk(*k))));
+                let (present, l, s) = match p.split_once(',') {
+                    Some((l, s)) => (1, l.parse().unwrap_or(u64::MAX), s.parse().unwrap_or(u64::MAX)),
+                    None if p == "none" => (0, 0, 0),
+                    None => (2, 0, 0),
+                };
+                h = mix(mix(mix(mix(h, *k), present), l), s);
+            }
+            fields.push(format!("a={}", h));
+        }
+        let d = t.dump();
+        max_pages = max_pages.max(d.total_pages);
+        let root = t.root();
+        let chk = rust_check(&d, root, kt);
+        if chk != "ok" && self_bad.is_none() {
+            self_bad = Some(format!("bad@{}:c={}", i, chk));
+        }
+        fields.push(format!("c={}", chk));
+        fields.push(format!("R={}", root));
+        let free = format!("F{}:{}", id0(d.first_free), id0(d.last_free));
+        if free != prev_free {
+            fields.push(free.clone());
+            prev_free = free;
+        }
+        let toks = page_tokens(&d, kt);
+        for (id, tok) in &toks {
+            if prev_tokens.get(id) != Some(tok) {
+                fields.push(tok.clone());
+            }
+        }
+        prev_tokens = toks;
+        let stoks = slotted_tokens(&d);
+        for (id, tok) in &stoks {
+            if prev_slotted.get(id) != Some(tok) {
+                fields.push(tok.clone());
+            }
+        }
+        prev_slotted = stoks;
+        out.push(fields.join(" "));
+        if self_bad.is_some() {
+            // the judge stops at the first inadmissible observation; whatever the damaged tree does next is not evidence
+            break;
+        }
+    }
+    let height = t.height().map(|h| h.to_string()).unwrap_or_else(|_| "?".into());
+    let mut line = format!("obs {}", out.join(" ; "));
+    line.push_str(&format!(" ## pages={} height={} self={}", max_pages, height, self_bad.unwrap_or_else(|| "ok".into())));
+    for m in diag_errs {
+        line.push_str(&format!(" err[{}]", m));
+    }
+    line
+}
+
+fn parse_sizes(s: &str) -> Option<Vec<usize>> {
+    if s == "-" {
+        return Some(vec![]);
+    }
+    s.split(',').map(|x| x.parse::<usize>().ok().filter(|n| *n <= 70_000)).collect()
+}
+
+impl Engine for BtreeEngine {
+    fn timeout_ms(&self) -> u64 {
+        120_000
+    }
+
+    fn exec(&mut self, line: &str) -> String {
+        let head = line.split(' ').next().unwrap_or("");
+        if head.starts_with("seq:") {
+            return match parse_seq(line) {
+                Some(c) => exec_seq(&c),
+                None => "bad-op".into(),
+            };
+        }
+        let w: Vec<&str> = line.split(' ').collect();
+        if let Some(kts) = head.strip_prefix("cmp:") {
+            let (Some(kt), [_, a, b]) = (parse_kt(kts), w.as_slice()) else { return "bad-op".into() };
+            let (Ok(a), Ok(b)) = (a.parse::<u64>(), b.parse::<u64>()) else { return "bad-op".into() };
+            if a >= MAX_KEY_INDEX || b >= MAX_KEY_INDEX {
+                return "bad-op".into();
+            }
+            let scratch = Scratch::new();
+            let Ok(t) = VTree::create(&scratch.0, 4096, 3, 1, 16, kind_of(kt)) else { return "create-failed".into() };
+            return match t.compare_keys(&realise(kt, 4096, a), &realise(kt, 4096, b)) {
+                Some(std::cmp::Ordering::Less) => "lt".into(),
+                Some(std::cmp::Ordering::Equal) => "eq".into(),
+                Some(std::cmp::Ordering::Greater) => "gt".into(),
+                None => "err".into(),
+            };
+        }
+        match w.as_slice() {
+            ["split", sizes] => match parse_sizes(sizes) {
+                Some(v) => {
+                    let storage: Vec<String> = v.iter().map(|n| cell_sizes(*n).0.to_string()).collect();
+                    let (l, r) = split_cells_sizes(&v);
+                    format!("split {} {} sizes={}", l, r, if storage.is_empty() { "-".into() } else { storage.join(",") })
+                }
+                None => "bad-op".into(),
+            },
+            ["dist", ps, sizes] => match (ps.parse::<usize>(), parse_sizes(sizes)) {
+                (Ok(ps), Some(v)) if ps == 4096 || ps == 8192 || ps == 16384 => {
+                    let g = geometry(ps, 3);
+                    let storage: Vec<String> = v.iter().map(|n| cell_sizes(*n).1.to_string()).collect();
+                    let (tot, cnt) = best_distribution_sizes(&v, ps);
+                    let j = |xs: &[usize]| xs.iter().map(|x| x.to_string()).collect::<Vec<_>>().join(",");
+                    format!(
+                        "dist usable={} under={} sizes={} totals={} counts={}",
+                        g.overflow_threshold,
+                        g.underflow_threshold,
+                        if storage.is_empty() { "-".into() } else { storage.join(",") },
+                        j(&tot),
+                        j(&cnt)
+                    )
+                }
+                _ => "bad-op".into(),
+            },
+            _ => "bad-op".into(),
+        }
+    }
+
+    fn gen_cases(&self, rng: &mut Rng, tier: Tier) -> Vec<Case> {
+        generator::gen_cases(rng, tier)
+    }
+}
+
+/// Content of `lean/AxVerif/Generated/BTree.lean`: the constants of the rebalancer, evaluated from the code.
 pub fn generated() -> Option<(&'static str, String)> {
-    None
+    let mut s = String::from(
+        "/- GENERATED by `axh extract` from /repo (crates/axmos-db/src/storage) — do not edit; rewritten on every ./check run. -/\nnamespace AxVerif.Generated.BTree\n\n",
+    );
+    let g = geometry(4096, 3);
+    s.push_str(&format!("def btreeHeaderSize : Nat := {}\n", g.btree_header));
+    s.push_str(&format!("def overflowHeaderSize : Nat := {}\n", g.overflow_header));
+    s.push_str(&format!("def cellHeaderSize : Nat := {}\n", g.cell_header));
+    s.push_str(&format!("def slotSize : Nat := {}\n", g.slot));
+    s.push_str("/-- (page size, usable space, overflow threshold, underflow threshold) for the page sizes the engine uses -/\n");
+    s.push_str("def thresholds : List (Nat × Nat × Nat × Nat) := [");
+    let rows: Vec<String> = [4096usize, 8192, 16384, 32768, 65536]
+        .iter()
+        .map(|ps| {
+            let g = geometry(*ps, 3);
+            format!("({}, {}, {}, {})", ps, g.usable, g.overflow_threshold, g.underflow_threshold)
+        })
+        .collect();
+    s.push_str(&rows.join(", "));
+    s.push_str("]\n\nend AxVerif.Generated.BTree\n");
+    Some(("BTree.lean", s))
+}
+
+mod generator {
+    use super::*;
+
+    #[derive(Clone, Copy, PartialEq, Eq, Debug)]
+    pub enum Profile {
+        Tiny,
+        Small,
+        /// 150..200 bytes: about eleven cells per 4 KiB page, so that ~1500 keys give a tree of height 4
+        SmallHi,
+        Mid,
+        Big,
+        Huge,
+        Mix,
+    }
+
+    impl Profile {
+        fn name(self) -> &'static str {
+            match self {
+                Profile::Tiny => "tiny",
+                Profile::Small => "small",
+                Profile::SmallHi => "smallhi",
+                Profile::Mid => "mid",
+                Profile::Big => "big",
+                Profile::Huge => "huge",
+                Profile::Mix => "mix",
+            }
+        }
+    }
+
+    /// payload length for a profile; `ideal` = largest payload kept in the page for this geometry
+    fn plen(rng: &mut Rng, p: Profile, ideal: usize, page: usize) -> usize {
+        match p {
+            Profile::Tiny => rng.below(41) as usize,
+            Profile::Small => 8 + rng.below(190) as usize,
+            Profile::SmallHi => 150 + rng.below(51) as usize,
+            Profile::Mid => 200 + rng.below(500) as usize,
+            // around the in-page / overflow boundary (tuple header + key take ~40 bytes of the cell payload)
+            Profile::Big => (ideal as i64 - 96 + rng.range(0, 128)).max(1) as usize,
+            Profile::Huge => page / 2 + rng.below(page as u64 * 4) as usize,
+            Profile::Mix => {
+                let q = *rng.pick(&[Profile::Tiny, Profile::Small, Profile::Small, Profile::Mid, Profile::Mid, Profile::Big, Profile::Huge]);
+                plen(rng, q, ideal, page)
+            }
+        }
+    }
+
+    fn order(rng: &mut Rng, pattern: &str, n: usize) -> Vec<u64> {
+        let keys: Vec<u64> = (0..n as u64).collect();
+        match pattern {
+            "asc" => keys,
+            "desc" => keys.into_iter().rev().collect(),
+            "zigzag" => {
+                let mut v = Vec::with_capacity(n);
+                let (mut lo, mut hi) = (0usize, n);
+                while lo < hi {
+                    v.push(keys[lo]);
+                    lo += 1;
+                    if lo < hi {
+                        hi -= 1;
+                        v.push(keys[hi]);
+                    }
+                }
+                v
+            }
+            "interleave" => {
+                let mut v: Vec<u64> = keys.iter().copied().filter(|k| k % 2 == 1).collect();
+                v.extend(keys.iter().copied().filter(|k| k % 2 == 0));
+                v
+            }
+            _ => {
+                let mut v = keys;
+                rng.shuffle(&mut v);
+                v
+            }
+        }
+    }
+
+    pub struct Plan {
+        pub ps: usize,
+        pub mk: usize,
+        pub sib: usize,
+        pub kt: &'static str,
+        pub profile: Profile,
+        pub pattern: &'static str,
+        pub nops: usize,
+    }
+
+    pub const PATTERNS: &[&str] =
+        &["asc", "desc", "zigzag", "random", "interleave", "dups", "delall", "churn", "growshrink", "mixed"];
+
+    pub fn build(rng: &mut Rng, pl: &Plan) -> Case {
+        let g = geometry(pl.ps, pl.mk);
+        let ideal = g.ideal_max_payload;
+        let mut ops: Vec<String> = Vec::new();
+        // key indices are spread (stride) so that later inserts can land between existing keys
+        let stride = 1 + rng.below(3);
+        let base = rng.below(50);
+        let kx = |k: u64| base + k * stride;
+        let seed = |rng: &mut Rng| rng.below(65536);
+        let mut present: BTreeSet<u64> = BTreeSet::new();
+        let n = pl.nops;
+        let sprinkle = |rng: &mut Rng, ops: &mut Vec<String>, present: &BTreeSet<u64>, universe: u64| {
+            if rng.chance(1, 12) {
+                ops.push("scan".into());
+            }
+            if rng.chance(1, 6) {
+                let k = if rng.chance(1, 2) && !present.is_empty() {
+                    *present.iter().nth(rng.below(present.len() as u64) as usize).unwrap()
+                } else {
+                    base + rng.below(universe * stride + 2)
+                };
+                ops.push(format!("{} {}", if rng.chance(1, 2) { "get" } else { "gett" }, k));
+            }
+        };
+        match pl.pattern {
+            "asc" | "desc" | "zigzag" | "random" | "interleave" => {
+                let count = n * 9 / 10;
+                for k in order(rng, pl.pattern, count) {
+                    let l = plen(rng, pl.profile, ideal, pl.ps);
+                    ops.push(format!("ins {} {} {}", kx(k), l, seed(rng)));
+                    present.insert(kx(k));
+                    sprinkle(rng, &mut ops, &present, count as u64);
+                    if ops.len() >= n {
+                        break;
+                    }
+                }
+            }
+            "dups" => {
+                let universe = (n as u64 / 6).max(4);
+                while ops.len() < n {
+                    let k = kx(rng.below(universe));
+                    let l = plen(rng, pl.profile, ideal, pl.ps);
+                    let o = match rng.below(10) {
+                        0..=4 => format!("ins {} {} {}", k, l, seed(rng)),
+                        5 => format!("upd {} {} {}", k, l, seed(rng)),
+                        6 => format!("ups {} {} {}", k, l, seed(rng)),
+                        7 => format!("rm {}", k),
+                        8 => format!("rmt {}", k),
+                        _ => format!("get {}", k),
+                    };
+                    ops.push(o);
+                }
+            }
+            "delall" => {
+                let count = (n * 3 / 10).max(2);
+                let ins_pat = *rng.pick(&["asc", "desc", "random", "zigzag"]);
+                let ins_order = order(rng, ins_pat, count);
+                for k in &ins_order {
+                    let l = plen(rng, pl.profile, ideal, pl.ps);
+                    ops.push(format!("ins {} {} {}", kx(*k), l, seed(rng)));
+                }
+                ops.push("scan".into());
+                let del_pat = *rng.pick(&["asc", "desc", "random", "zigzag"]);
+                for k in order(rng, del_pat, count) {
+                    ops.push(format!("{} {}", if rng.chance(1, 2) { "rm" } else { "rmt" }, kx(k)));
+                }
+                ops.push("scan".into());
+                let re_pat = *rng.pick(&["asc", "desc", "random"]);
+                for k in order(rng, re_pat, count) {
+                    let l = plen(rng, pl.profile, ideal, pl.ps);
+                    ops.push(format!("ins {} {} {}", kx(k), l, seed(rng)));
+                    if ops.len() >= n {
+                        break;
+                    }
+                }
+            }
+            "growshrink" => {
+                let count = (n / 4).max(2);
+                let small = if pl.profile == Profile::Huge { Profile::Small } else { Profile::Tiny };
+                let pat = *rng.pick(&["asc", "random", "desc"]);
+                for k in order(rng, pat, count) {
+                    let l = plen(rng, small, ideal, pl.ps);
+                    ops.push(format!("ins {} {} {}", kx(k), l, seed(rng)));
+                }
+                for round in 0..3 {
+                    let pat = *rng.pick(&["asc", "random", "desc"]);
+                    for k in order(rng, pat, count) {
+                        let prof = if round % 2 == 0 { pl.profile } else { small };
+                        let l = plen(rng, prof, ideal, pl.ps);
+                        ops.push(format!("{} {} {} {}", if rng.chance(1, 2) { "upd" } else { "ups" }, kx(k), l, seed(rng)));
+                        if ops.len() >= n {
+                            break;
+                        }
+                    }
+                }
+            }
+            _ => {
+                // churn / mixed: random operations over a universe, biased to keep ~60 % of it present
+                let universe = (n as u64 / 2).max(8);
+                let warm = if pl.pattern == "churn" { n / 3 } else { 0 };
+                while ops.len() < n {
+                    let k = kx(rng.below(universe));
+                    let l = plen(rng, pl.profile, ideal, pl.ps);
+                    let want_more = ops.len() < warm || (present.len() as u64) < universe * 6 / 10;
+                    let o = match rng.below(20) {
+                        0..=7 if want_more => {
+                            present.insert(k);
+                            format!("{} {} {} {}", if rng.chance(3, 4) { "ins" } else { "ups" }, k, l, seed(rng))
+                        }
+                        0..=7 => {
+                            present.remove(&k);
+                            format!("{} {}", if rng.chance(1, 2) { "rm" } else { "rmt" }, k)
+                        }
+                        8..=10 => format!("upd {} {} {}", k, l, seed(rng)),
+                        11..=12 => {
+                            present.insert(k);
+                            format!("ups {} {} {}", k, l, seed(rng))
+                        }
+                        13..=15 => {
+                            present.remove(&k);
+                            format!("{} {}", if rng.chance(1, 2) { "rm" } else { "rmt" }, k)
+                        }
+                        16..=17 => format!("get {}", k),
+                        18 => format!("gett {}", k),
+                        _ => "scan".into(),
+                    };
+                    ops.push(o);
+                }
+            }
+        }
+        ops.truncate(n.max(1));
+        let line = format!("seq:{}:{}:{}:{} {}", pl.ps, pl.mk, pl.sib, pl.kt, ops.join(" ; "));
+        let mut tags: Vec<String> = vec![
+            "seq".into(),
+            format!("ps{}", pl.ps),
+            format!("mk{}", pl.mk),
+            format!("sib{}", pl.sib),
+            format!("kt-{}", pl.kt),
+            format!("pay-{}", pl.profile.name()),
+            format!("pat-{}", pl.pattern),
+            format!("ops{}", match ops.len() { 0..=49 => "lt50", 50..=149 => "50-149", 150..=299 => "150-299", _ => "ge300" }),
+        ];
+        if ops.len() >= 20 {
+            tags.push("nt".into());
+        }
+        for f in features(pl) {
+            tags.push(f.into());
+        }
+        Case { line, tags }
+    }
+
+    /// Known-finding features of a plan (DESIGN §4.2: a quick-tier case carries at most one).
+    /// `bigcell`: some cell may be large against the page (payload profile mid/big/huge/mix, or keys that spill into
+    /// overflow pages). Dividers in interior pages are full copies of leaf cells, so such trees run into
+    /// KF-C10-divider-full-copy (StorageFull in a parent, stale overflow-chain alias, interior pages without cells).
+    pub fn features(pl: &Plan) -> Vec<&'static str> {
+        if matches!(pl.profile, Profile::Mid | Profile::Big | Profile::Huge | Profile::Mix) || pl.kt == "ltext" {
+            vec!["bigcell"]
+        } else {
+            vec!["clean"]
+        }
+    }
+
+    pub fn gen_cases(rng: &mut Rng, tier: Tier) -> Vec<Case> {
+        let mut out = Vec::new();
+        let (nseq, maxops) = match tier {
+            Tier::Quick => (60, 400),
+            Tier::Thorough => (400, 1200),
+        };
+        let clean = [Profile::Tiny, Profile::Small, Profile::Small];
+        let risky = [Profile::Mid, Profile::Big, Profile::Huge, Profile::Mix];
+        let kts = ["u64", "u64", "i64", "text", "comp"];
+        for i in 0..nseq {
+            // patterns come round; 3 of 10 sequences are drawn from the known-finding region (large cells)
+            let pattern = PATTERNS[i % PATTERNS.len()];
+            let in_region = (i / PATTERNS.len() + i) % 10 < 3;
+            let profile = if in_region { risky[(i / 3) % risky.len()] } else { clean[(i / 2) % clean.len()] };
+            let ps = match rng.below(12) {
+                0 | 1 => 8192,
+                2 => 16384,
+                _ => 4096,
+            };
+            let kt = if in_region && rng.chance(1, 8) { "ltext" } else { *rng.pick(&kts) };
+            // scans after every operation make a sequence quadratic in the bytes stored: keep huge payloads short
+            let cap = match profile {
+                Profile::Huge => maxops / 4,
+                Profile::Mix | Profile::Big => maxops * 3 / 4,
+                _ => maxops,
+            };
+            let cap = if kt == "ltext" { cap.min(maxops / 3) } else { cap };
+            let pl = Plan {
+                ps,
+                mk: 3 + rng.below(6) as usize,
+                sib: 1 + rng.below(4) as usize,
+                kt,
+                profile,
+                pattern,
+                nops: match rng.below(4) {
+                    0 => 20 + rng.below(60) as usize,
+                    1 => 80 + rng.below(120) as usize,
+                    _ => cap * 2 / 3 + rng.below(cap as u64 / 3) as usize,
+                }
+                .min(cap),
+            };
+            out.push(build(rng, &pl));
+        }
+        // deep trees in the clean region: height >= 4 needs ~1500 cells of ~1/11 page, so that interior pages are
+        // rebalanced against interior siblings (the dividers of a level come from the level above, not from the children)
+        let ndeep = if tier == Tier::Quick { 3 } else { 16 };
+        for i in 0..ndeep {
+            let pattern = ["asc", "random", "desc", "churn", "delall", "zigzag"][(i + rng.below(6) as usize) % 6];
+            let pl = Plan {
+                ps: 4096,
+                mk: 3 + rng.below(3) as usize,
+                sib: 1 + rng.below(4) as usize,
+                kt: *rng.pick(&["u64", "i64", "comp"]),
+                profile: Profile::SmallHi,
+                pattern,
+                nops: 1700 + rng.below(500) as usize,
+            };
+            let mut c = build(rng, &pl);
+            c.tags.push("deep".into());
+            out.push(c);
+        }
+        // comparator tie: the realisation of key indices is monotone under the code's comparator
+        for kt in ["u64", "i64", "text", "ltext", "comp"] {
+            for _ in 0..40 {
+                let a = rng.below(2000);
+                let b = if rng.chance(1, 5) { a } else { rng.below(2000) };
+                out.push(Case::new(format!("cmp:{} {} {}", kt, a, b), &["cmp", "nt"]));
+            }
+        }
+        // pure helpers on size vectors
+        let nh = if tier == Tier::Quick { 300 } else { 3000 };
+        for i in 0..nh {
+            let n = 1 + rng.below(40) as usize;
+            let class = i % 4;
+            let sizes: Vec<String> = (0..n)
+                .map(|_| {
+                    match class {
+                        0 => rng.below(64),
+                        1 => rng.below(700),
+                        2 => 600 + rng.below(700),
+                        _ => *rng.pick(&[8u64, 40, 300, 900, 1300]) + rng.below(16),
+                    }
+                    .to_string()
+                })
+                .collect();
+            if i % 3 == 0 {
+                out.push(Case::new(format!("split {}", sizes.join(",")), &["split", "nt"]));
+            } else {
+                out.push(Case::new(format!("dist 4096 {}", sizes.join(",")), &["dist", "nt", ["dist-tiny", "dist-small", "dist-large", "dist-mixed"][class]]));
+            }
+        }
+        // outside the domain the tree can produce (a cell larger than usable/3): here the fix-up of the helper underflows
+        // and panics; the model must predict exactly when
+        for _ in 0..(nh / 15) {
+            let n = 2 + rng.below(6) as usize;
+            let big = rng.below(n as u64) as usize;
+            let sizes: Vec<String> = (0..n)
+                .map(|i| if i == big { 2000 + rng.below(900) } else { *rng.pick(&[8u64, 200, 600, 1200]) + rng.below(64) }.to_string())
+                .collect();
+            out.push(Case::new(format!("dist 4096 {}", sizes.join(",")), &["dist", "nt", "dist-oversize"]));
+        }
+        out
+    }
 }
